@@ -6,7 +6,7 @@ BOUNDS = {
              'bidirectional wrapper for the algorithms that need it at LN in {0,2,4}; single-pass input + write-only output wrappers at LN in {0,3}, LM in {0,2}. '
              'Symbolic: every element (32 bit), searched / replaced values, predicate parameters (mask, pivot), generator seed/step, counts (copy_n, fill_n, generate_n <= LN incl. negative; search_n any int), '
              'shift amounts (any non-negative 64-bit value; negative for the documented no-op of shift_right), rotate / rotate_copy split point 0..LN, iter_swap positions',
-    'thorough': 'as quick with LN = 0..6, LM = 0..4 for pointers (merge/set_*/find_end: LN+LM <= 7, is_permutation / equal_range: LN <= 5); comparators and wrappers at LN in {0,1,2,3,5}, LM in {0,1,2,3}; '
+    'thorough': 'as quick with LN = 0..6, LM = 0..4 for pointers (merge/set_*: LN+LM <= 6, find_end: LN+LM <= 7, is_permutation / equal_range: LN <= 5); comparators and wrappers at LN in {0,1,3,5}, LM in {0,1,3}; '
                 'key-only comparator over bidirectional wrapper LN <= 4; struct element type (key, tag) with key-only operators over pointers (LN <= 5) and forward wrapper (LN <= 4)',
 }
 ASSUMPTIONS = [
@@ -14,6 +14,7 @@ ASSUMPTIONS = [
     'alg_std: documented preconditions assumed: sorted inputs for includes/merge/set_*; range partitioned w.r.t. the value for lower_bound/upper_bound/equal_range/binary_search; partitioned range for partition_point; clamp: !(hi < lo); for_each_n: 0 <= n <= length; copy_n/fill_n/generate_n: n <= length of the buffers; shift_left/shift_right: n >= 0 ([alg.shift]); 3-iterator overloads get a second range of the same length',
     'alg_std: remove/remove_if/unique compare [first, result) only, shift_left [first, result), shift_right [result, last) (the rest is unspecified by the standard); destinations are pre-filled with symbolic values and compared as a whole (nothing else written)',
     'alg_std: unary predicates are the family (bits(x) & mask) < pivot with symbolic mask and pivot; comparators: operator< (default overload), greater, key-only; arbitrary user predicates are outside the claim',
+    'alg_std: reverse_iterator, back_insert_iterator (over a minimal push_back sink), next/distance and swap are exercised through find/copy/copy_if/merge with pointers only',
     'alg_std: etl::search_n, inplace_merge, stable_partition do not instantiate for non-pointer / non-random-access iterators and etl::unique_copy not for a write-only output iterator; those combinations are compile-time restrictions and are not part of the run-time claim',
 ]
 # entry -> (ranges, minimal iterator kinds it is instantiated for, which configurable functor it takes: 'C' comparator, 'E' equivalence, '' none)
@@ -32,11 +33,12 @@ E = {
  'transform2': (1, INP, ''), 'replace': (1, FWD, ''), 'replace_if': (1, FWD, ''), 'remove': (1, FWD, ''), 'remove_if': (1, FWD, ''), 'remove_copy': (1, INP, ''), 'remove_copy_if': (1, INP, ''),
  'reverse': (1, BIDI, ''), 'reverse_copy': (1, BIDI, ''), 'rotate': (1, FWD, ''), 'rotate_copy': (1, FWD, ''), 'shift_left': (1, FWD, ''), 'shift_right': (1, BIDI, ''), 'shift_right_neg': (1, BIDI, ''), 'swap_ranges': (1, FWD, ''),
  'unique': (1, FWD, 'E'), 'unique_copy': (1, FWD, 'E'), 'partition_copy': (1, INP, ''),
+ 'rev_find': (1, PTR, ''), 'rev_copy': (1, PTR, ''), 'rev_dist': (1, PTR, ''), 'back_insert_copy_if': (1, PTR, ''), 'back_insert_merge': (2, PTR, 'C'), 'swap': (0, PTR, ''),
  'merge': (2, INP, 'C'), 'set_difference': (2, INP, 'C'), 'set_intersection': (2, INP, 'C'), 'set_symmetric_difference': (2, INP, 'C'), 'set_union': (2, INP, 'C'),
 }
 NONEMPTY = {'iter_swap'}
 BIDI_ONLY = {'copy_backward', 'copy_backward_overlap', 'move_backward', 'reverse', 'reverse_copy', 'shift_right', 'shift_right_neg'}
-MERGE = {'merge', 'set_difference', 'set_intersection', 'set_symmetric_difference', 'set_union'}
+MERGE = {'back_insert_merge', 'merge', 'set_difference', 'set_intersection', 'set_symmetric_difference', 'set_union'}
 
 def open_ids():
     here = os.path.dirname(os.path.abspath(__file__))
@@ -72,7 +74,7 @@ def grid(out, ns, ms, it, cmp, elem, ub, only=None):
 # per-entry size caps (cost grows fastest for the algorithms that write through a data-dependent output position)
 def allowed(entry, n, m, tier):
     q = tier == 'quick'
-    if entry in MERGE: return n + m <= (5 if q else 7)
+    if entry in MERGE: return n + m <= (5 if q else 6)
     if entry == 'find_end': return n + m <= (6 if q else 7)
     if entry in ('equal4_symlen', 'is_permutation4_symlen'): return m == n and n > 0   # second length symbolic in 0..LM: only LM == LN configurations
     if entry in ('is_permutation3', 'is_permutation4'): return n <= (4 if q else 5)
@@ -95,9 +97,10 @@ def queries(tier, prop='C06'):
         nmax, mmax = 6, 4
         grid(out, range(0, nmax + 1), range(0, mmax + 1), 0, 0, 0, ub)
         for cmp in (1, 2):
-            grid(out, (0, 1, 2, 3, 5), (0, 1, 2, 3), 0, cmp, 0, ub)
+            grid(out, (0, 1, 3, 5), (0, 1, 3), 0, cmp, 0, ub)
         for it in (1, 2, 3):
-            grid(out, (0, 1, 2, 3, 5), (0, 1, 3), it, 0, 0, ub)
+            grid(out, (0, 1, 3, 5), (0, 1, 3), it, 0, 0, ub)
+        grid(out, (2,), (2,), 1, 0, 0, ub, only={'equal4_symlen', 'is_permutation4_symlen'})
         grid(out, (0, 1, 2, 4), (0, 2), 2, 2, 0, ub)
         grid(out, (0, 1, 3, 5), (0, 2, 3), 0, 0, 1, ub)                              # struct element (key, tag), operators look at the key only
         grid(out, (0, 1, 3, 4), (0, 2), 1, 0, 1, ub)
